@@ -1,5 +1,5 @@
-(** C04 — two accepted letter-case variants of an address get the same mailbox name *)
-From IV Require Import Base.Bytes Model.Addr Proofs.AddrFacts Proofs.AddrScan Proofs.AddrDomain Proofs.AddrNaming.
-Theorem case_insensitive : forall (parse_ip : str -> bool), (forall s, parse_ip (lower s) = parse_ip s) -> (forall s, parse_ip s = true -> forallb ip_char s = true) -> forall mode a a' r r', lower a = lower a' -> new_recipient parse_ip mode a = Some r -> new_recipient parse_ip mode a' = Some r' -> r_mailbox r = r_mailbox r'.
-Proof. exact AddrNaming.case_insensitive. Qed.
+(** C04 — two accepted letter-case variants of an address get the same mailbox name (no assumption on net.ParseIP) *)
+From IV Require Import Base.Bytes Model.Addr Model.IpLit Model.AddrU Proofs.AddrNaming Proofs.AddrGo Proofs.IpLit.
+Theorem case_insensitive : forall mode a a' r r', lower a = lower a' -> new_recipient go_parse_ip mode a = Some r -> new_recipient go_parse_ip mode a' = Some r' -> r_mailbox r = r_mailbox r'.
+Proof. exact AddrGo.case_insensitive_go. Qed.
 Print Assumptions case_insensitive.
